@@ -169,6 +169,7 @@ static inline void __attribute__((always_inline)) myth_queue_push(myth_thread_qu
       /* TODO:extend runqueue */
     } else {
       //Shift pointers
+      MYTH_VERIF_PROBE(MYTH_VP_RECENTRE_DOWN, q);
       int offset = (- q->base - 1) / 2;
       myth_assert(offset < 0);
       memmove(&q->ptr[q->base+offset], &q->ptr[q->base], 
@@ -181,8 +182,10 @@ static inline void __attribute__((always_inline)) myth_queue_push(myth_thread_qu
     myth_wsqueue_lock_unlock(&q->lock);
   }
   //Do not need to extend of move.
+  MYTH_VERIF_POINT(MYTH_VS_Q_PUSH_SLOT_WR);
   q->ptr[t] = th;
   myth_wsqueue_wbarrier();//Guarantee W-W dependency
+  MYTH_VERIF_POINT(MYTH_VS_Q_PUSH_TOP_WR);
   q->top = t + 1;
 #if USE_LOCK || USE_LOCK_PUSH
   myth_spin_unlock_body(&q->m_lock);
@@ -196,6 +199,7 @@ static inline myth_thread_t __attribute__((always_inline)) myth_queue_pop(myth_t
   myth_queue_enter_operation(q);
 
 #if QUICK_CHECK_ON_POP
+  MYTH_VERIF_POINT(MYTH_VS_Q_POP_QC);
   if (q->top <= q->base) {
     return NULL;
   }
@@ -208,11 +212,14 @@ static inline myth_thread_t __attribute__((always_inline)) myth_queue_pop(myth_t
   int top,base;
   top = q->top;
   top--;
+  MYTH_VERIF_POINT(MYTH_VS_Q_POP_TOP_WR);
   q->top = top;
   //Decrement and check top
   myth_wsqueue_rwbarrier();
+  MYTH_VERIF_POINT(MYTH_VS_Q_POP_BASE_RD);
   base = q->base;
   if (base + 1 < top){
+    MYTH_VERIF_POINT(MYTH_VS_Q_POP_SLOT_RD);
     ret = q->ptr[top];
     //q->ptr[top]=NULL;
 #if USE_LOCK || USE_LOCK_POP
@@ -221,6 +228,7 @@ static inline myth_thread_t __attribute__((always_inline)) myth_queue_pop(myth_t
     myth_queue_exit_operation(q);
     return ret;
   } else {
+    MYTH_VERIF_PROBE(MYTH_VP_POP_SLOW, q);
     myth_wsqueue_lock_lock(&q->lock);
     base = q->base;
     if (base <= top){//OK
@@ -248,6 +256,8 @@ static inline myth_thread_t __attribute__((always_inline)) myth_queue_pop(myth_t
       myth_queue_exit_operation(q);
       return ret;
     } else {
+      MYTH_VERIF_PROBE(MYTH_VP_POP_RESET, q);
+      MYTH_VERIF_POINT(MYTH_VS_Q_POP_RESET);
       q->top = q->size/2;
       q->base = q->size/2;
       myth_wsqueue_lock_unlock(&q->lock);
@@ -274,6 +284,7 @@ static inline myth_thread_t myth_queue_take(myth_thread_queue_t q)
   myth_thread_t ret;
   int b,top;
 #if QUICK_CHECK_ON_STEAL
+  MYTH_VERIF_POINT(MYTH_VS_Q_TAKE_QC);
   if (q->top - q->base <= 0){
     return NULL;
   }
@@ -292,11 +303,14 @@ static inline myth_thread_t myth_queue_take(myth_thread_queue_t q)
 #endif
   //Increment base
   b = q->base;
+  MYTH_VERIF_POINT(MYTH_VS_Q_TAKE_BASE_WR);
   q->base = b + 1;
   myth_wsqueue_rwbarrier();
+  MYTH_VERIF_POINT(MYTH_VS_Q_TAKE_TOP_RD);
   top = q->top;
   if (b < top){
     myth_wsqueue_rbarrier();
+    MYTH_VERIF_POINT(MYTH_VS_Q_TAKE_SLOT_RD);
     ret = q->ptr[b];
     //q->ptr[b]=NULL;
     myth_wsqueue_lock_unlock(&q->lock);
@@ -305,6 +319,8 @@ static inline myth_thread_t myth_queue_take(myth_thread_queue_t q)
 #endif
     return ret;
   }else{
+    MYTH_VERIF_PROBE(MYTH_VP_TAKE_ROLLBACK, q);
+    MYTH_VERIF_POINT(MYTH_VS_Q_TAKE_ROLLBACK);
     q->base = b;
     myth_wsqueue_lock_unlock(&q->lock);
 #if USE_LOCK || USE_LOCK_TAKE
@@ -320,6 +336,7 @@ static inline myth_thread_t myth_queue_peek(myth_thread_queue_t q)
   myth_thread_t ret;
   int b,top;
 #if QUICK_CHECK_ON_STEAL
+  MYTH_VERIF_POINT(MYTH_VS_Q_PEEK_QC);
   if (q->top - q->base <= 0){
     return NULL;
   }
@@ -327,10 +344,12 @@ static inline myth_thread_t myth_queue_peek(myth_thread_queue_t q)
   //myth_wsqueue_lock_lock(&q->lock);
   //if (!myth_wsqueue_lock_trylock(&q->lock))return NULL;
   //Increment base
+  MYTH_VERIF_POINT(MYTH_VS_Q_PEEK_RD);
   b = q->base;
   top = q->top;
   if (b < top){
     myth_wsqueue_rbarrier();
+    MYTH_VERIF_POINT(MYTH_VS_Q_PEEK_SLOT_RD);
     ret = q->ptr[b];
     //myth_wsqueue_lock_unlock(&q->lock);
     return ret;
@@ -355,8 +374,10 @@ static inline int myth_queue_trypass(myth_thread_queue_t q,myth_thread_t th)
   else{
     int b;
     b = q->base;
+    MYTH_VERIF_POINT(MYTH_VS_Q_PASS_SLOT_WR);
     q->ptr[b-1] = th;
     myth_wsqueue_wbarrier();
+    MYTH_VERIF_POINT(MYTH_VS_Q_PASS_BASE_WR);
     q->base--;
   }
   myth_wsqueue_lock_unlock(&q->lock);
@@ -390,6 +411,7 @@ static inline void myth_queue_put(myth_thread_queue_t q, myth_thread_t th)
       fprintf(stderr,"Fatal error:Runqueue overflow\n");
       abort();
     } else {
+      MYTH_VERIF_PROBE(MYTH_VP_RECENTRE_UP, q);
       int offset = (q->size - q->top + 1) / 2;
       myth_assert(offset > 0);
       memmove(&q->ptr[q->base + offset], &q->ptr[q->base],
@@ -402,7 +424,9 @@ static inline void myth_queue_put(myth_thread_queue_t q, myth_thread_t th)
   int b = q->base;
   myth_assert(b > 0);
   b--;
+  MYTH_VERIF_POINT(MYTH_VS_Q_PUT_SLOT_WR);
   q->ptr[b] = th;
+  MYTH_VERIF_POINT(MYTH_VS_Q_PUT_BASE_WR);
   q->base = b;
   myth_wsqueue_lock_unlock(&q->lock);
 #if USE_LOCK || USE_LOCK_PUSH
